@@ -13,6 +13,7 @@ _cache = {}
 def assemble(source, constants={}, labels=None):          # R16.2 mutable default
     global _counter                                        # R16.1 global statement
     _counter = 1
+    constants[source] = 0                                  # ... and the shared default is changed
     REGISTERS[source] = 1                                  # R16.1 store into module table
     KEYWORDS.add(source)                                   # R16.1 mutating method on module set
     alias = _cache
@@ -32,4 +33,5 @@ def assemble(source, constants={}, labels=None):          # R16.2 mutable defaul
 
 @lru_cache(maxsize=None)                                   # R16.2 memoised across calls
 def helper(x):
-    return x
+    with open(x) as f:                                     # ... of something that depends on more than the argument
+        return f.read()
